@@ -24,10 +24,10 @@ type Model struct {
 	// the harness's observations and its own later requests touch access times)
 	MaskATime bool
 
-	cwd   cwdState
-	ro    roState
-	wo    woState
-	Ended bool // the server has ended (or must have ended) the connection
+	cwd        cwdState
+	ro         roState
+	wo         woState
+	Ended      bool // the server has ended (or must have ended) the connection
 	quietEndOK bool // this request is an empty critical read and faults are injected: see errQuietEnd
 	quietPrev  bool // the previous request was one
 
@@ -1609,6 +1609,34 @@ func (m *Model) touched(real string) {
 	if (m.cwd.kind == cwdOpen || m.cwd.kind == cwdExhausted) && (filepath.Dir(real) == m.cwd.dir || real == m.cwd.dir || strings.HasPrefix(m.cwd.dir, real+"/")) {
 		m.cwd = cwdState{kind: cwdUnknown}
 	}
+}
+
+// Local performs a harness-side action on the served tree (session steps whose Op starts with "LOCAL_"):
+//
+//	LOCAL_SWAP  Path <-> Raw: the two files exchange their names by renames (an image replaced under its name)
+//
+// Whatever the connection holds open on the affected paths becomes unpredictable until it is opened again.
+func (m *Model) Local(r Req) error {
+	m.tr("%s(%s,%s)", r.Op, string(r.Path), string(r.Raw))
+	switch r.Op {
+	case "LOCAL_SWAP":
+		a, _, _ := m.Resolve(string(r.Path))
+		b, _, _ := m.Resolve(string(r.Raw))
+		tmp := a + ".swap-tmp"
+		if err := os.Rename(a, tmp); err != nil {
+			return err
+		}
+		if err := os.Rename(b, a); err != nil {
+			return err
+		}
+		if err := os.Rename(tmp, b); err != nil {
+			return err
+		}
+		m.touched(a)
+		m.touched(b)
+		return nil
+	}
+	return fmt.Errorf("unknown local action %q", r.Op)
 }
 
 // Dump renders the trace for failure messages.
